@@ -36,11 +36,16 @@ def scen_path(n):
 
 def mk_factory(sc, f8, f9, strict=False):
     def mk(d, kind):
+        # kinds: "mc" (coarse granularity, every interleaving of the wake-ups), "graph" (coarse, eager wake-ups:
+        # the controller's steps, source of the schedules), "fine" (model check only: a replacement's return is
+        # logged in a later step than its critical section, as in sched.Exec.ParkUnl executions; the monitor is
+        # told and must hold as it stands, without the LateRace tolerance), "f8" (busy-loop property only)
         consts = ["Proms0 <- ScProms", "Cur0 = %d" % sc["cur"], "Prog <- ScProg",
                   "FixF8 = %s" % ("TRUE" if f8 else "FALSE"), "FixF9 = %s" % ("TRUE" if f9 else "FALSE"),
-                  "EagerWake = %s" % ("TRUE" if kind == "graph" else "FALSE")]
+                  "EagerWake = %s" % ("TRUE" if kind == "graph" else "FALSE"),
+                  "Fine = %s" % ("TRUE" if kind == "fine" else "FALSE")]
         cfg = ["INIT Init", "NEXT Next", "CHECK_DEADLOCK FALSE", "CONSTANTS"] + [" " + c for c in consts]
-        if kind == "mc":
+        if kind in ("mc", "fine"):
             cfg += ["INVARIANTS TypeOK FieldsBeforeClose ModelSafe " + ("QuietInvStrict" if strict else "QuietInv")]
             if f8:
                 cfg += ["PROPERTY NoBusyLoop"]
@@ -76,6 +81,16 @@ def one_model(wd, tier, seed, name):
     ops = [o for cl in sc["clients"] for o in cl]
     container = any(o["op"] == "await" and o["q"] == 0 for o in ops)
     if container and not big:
+        # X |= P at the fine granularity (the restated PromiseP must hold when a replacement's return is logged
+        # steps after its critical section and selects are entered with several cases ready)
+        d = vlib.spec_scratch(wd, name + "-fine", ["promise", "lib"])
+        mk_factory(sc, FIX_F8, FIX_F9)(d, "fine")
+        rn = vlib.run_tlc(d, "MC", "MC.cfg", workers=w, timeout=900)
+        shutil.rmtree(d, ignore_errors=True)
+        vlib.log("[model] %s (fine): %d distinct states, %d transitions generated ok=%s" % (name, rn["distinct"], rn["states"], rn["ok"]))
+        r = dict(r, distinct=r["distinct"] + rn["distinct"], states=r["states"] + rn["states"])
+        if not rn["ok"]:
+            notes.append("model %s (fine): %s %s" % (name, rn["error"], rn["violated"]))
         # the monitor accepts the repaired implementation model (all conditions, strict quiescence)
         d = vlib.spec_scratch(wd, name + "-fixed", ["promise", "lib"])
         mk_factory(sc, True, True, strict=True)(d, "mc")
@@ -118,7 +133,9 @@ FAM = dict(driver="promise", specdirs=["promise", "lib"], monitor="PromisePTrace
                                                                nsched=60 if tier == "quick" else 4000, nrand=40 if tier == "quick" else 2000),
            assumptions=["PromiseP readings R1-R5 (header of PromiseP.tla): concurrent SetResult judged by real-time order; "
                         "a non-zero returned value claims to be a result; 'current' = possibly current during the call; "
-                        "timeliness judged at controller-detected quiescence; CPU use = controller spin observation"])
+                        "timeliness judged at controller-detected quiescence; CPU use = controller spin observation",
+                        "logged calls/returns bound the critical sections (PromiseP B1-B5); in executions where the end of a critical "
+                        "section is a park point (cfg fine) 'follows replacements' is judged by the interval reading only (no `late`)"])
 
 
 def run(prop, tier, seed):
@@ -157,7 +174,7 @@ def x_conformance(wd, binp, seed, names, nsched=60, nrand=40, scheds=None):
             return res
         d = vlib.spec_scratch(wd, "x-" + name, ["promise", "lib"])
         consts = ["Proms0 <- ScProms", "Cur0 = %d" % sc["cur"], "Prog <- ScProg",
-                  "FixF8 = %s" % ("TRUE" if FIX_F8 else "FALSE"), "FixF9 = %s" % ("TRUE" if FIX_F9 else "FALSE"), "EagerWake = FALSE"]
+                  "FixF8 = %s" % ("TRUE" if FIX_F8 else "FALSE"), "FixF9 = %s" % ("TRUE" if FIX_F9 else "FALSE"), "EagerWake = FALSE", "Fine = FALSE"]
         vlib.write_mc(d, "MCX", "PromiseXTrace", ["ScProms == " + vlib.json2tla(sc["proms"]), "ScProg == " + vlib.json2tla(sc["clients"])],
                       ["INIT TInit", "NEXT TNext", "CHECK_DEADLOCK FALSE", "CONSTANTS"] + [" " + c for c in consts])
         vf = os.path.join(d, "verdict.json")
